@@ -426,5 +426,9 @@ def run(chk):
     from . import c01
 
     c01.r01_4(chk)
+    # the JSON form of a tree is a newick string plus edge attributes keyed by name: writer and reader conventions must match (C09's R09.4)
+    from . import c09
+
+    c09.r09_4(chk)
     chk.assume("util/deserialise.py is imported (and registers its keys) before any other registering module, because each of them imports register_deserialiser from it")
     chk.assume("classes listed in NOT_SERIALISABLE are outside the serialisable API (each with its reason)")
